@@ -136,3 +136,10 @@ Definition vclear (k : string) (v : value) : value :=
   match v with VM f => VM (aremove k f) | _ => v end.
 Definition vset (k : string) (x : value) (v : value) : value :=
   match v with VM f => VM (aset k x f) | _ => v end.
+
+(* the sub-tree at a position: a chain of field names, each step through a (singular) message *)
+Fixpoint get_at (q : list string) (v : value) : option value :=
+  match q with
+  | [] => Some v
+  | k :: r => match vget k v with Some x => get_at r x | None => None end
+  end.
